@@ -44,6 +44,9 @@ def collect(fn, max_paths=20000):
                 msg = e[1]
                 if msg.startswith("Resumed") or msg in ("Misaligned", "NullDeref", "InvalidEnum"):
                     continue
+                cv = const_val(e[3])
+                if isinstance(cv, int) and bool(cv) == bool(e[4]):
+                    continue  # condition is a constant that equals the expected value: cannot fire
                 k = (msg, tuple(canon(o) for o in e[2]), e[6])
                 atoms = p.atoms[:e[7]]
                 macs = e[8] if len(e) > 8 else ()
@@ -160,3 +163,129 @@ def discharge(o, typeb=None, width_of=None):
             return "constant divisor %s" % v
         return None
     return None
+
+
+# ------------------------------------------------------------------ richer dischargers
+
+def _is_len_of(e, s):
+    """is e the expression `len(s)` (slice/Vec/Bytes length)"""
+    from pathwalk import strip_refs
+    e = intervals.core(e)
+    if isinstance(e, tuple) and e[0] == "call" and re.search(r"(\[T\]>|Vec<T, A>|Bytes)::len$", e[1]) and e[2]:
+        return strip_refs(e[2][0]) == strip_refs(s)
+    if isinstance(e, tuple) and e[0] == "un" and e[1] == "PtrMetadata":
+        return strip_refs(e[2]) == strip_refs(s)
+    return False
+
+
+def len_lower_bound(atoms, s):
+    """largest c such that len(s) >= c is implied by the path (0 if none)"""
+    from pathwalk import strip_refs
+    lo = 0
+    for a in atoms:
+        if a[0] == "cmp":
+            op, l, r = a[1], a[2], a[3]
+            if _is_len_of(l, s) and intervals.cval(r) is not None:
+                c = intervals.cval(r)
+                if op == "Ge":
+                    lo = max(lo, c)
+                elif op == "Gt":
+                    lo = max(lo, c + 1)
+                elif op == "Eq":
+                    lo = max(lo, c)
+            elif _is_len_of(r, s) and intervals.cval(l) is not None:
+                c = intervals.cval(l)
+                if op == "Le":
+                    lo = max(lo, c)
+                elif op == "Lt":
+                    lo = max(lo, c + 1)
+    return lo
+
+
+def fits_by_get(atoms, s, n):
+    """path contains `s.get(..n)` is Some  (=> n <= len(s))"""
+    from pathwalk import strip_refs
+    for a in atoms:
+        subj = None
+        if a[0] == "is" and a[2] == "Some":
+            subj = a[1]
+        elif a[0] == "try" and a[2] is True:
+            subj = a[1]
+        if isinstance(subj, tuple) and subj[0] == "call" and re.search(r"\[T\]>::get$", subj[1]) and len(subj[2]) == 2:
+            sl, rng = subj[2]
+            if strip_refs(sl) == strip_refs(s) and isinstance(rng, tuple) and rng[0] == "agg" and rng[2].endswith("RangeTo") and rng[5] and intervals.core(rng[5][0]) == intervals.core(n):
+                return True
+    return False
+
+
+def known_some(atoms, e):
+    from pathwalk import strip_refs
+    e = strip_refs(e)
+    for a in atoms:
+        if a[0] == "is" and a[2] in ("Some", "Ok") and strip_refs(a[1]) == e:
+            return True
+        if a[0] == "try" and a[2] is True and strip_refs(a[1]) == e:
+            return True
+    return False
+
+
+def discharge_index(o, array_len=None, typeb=None):
+    """`s[a..b]`, `s[..b]`, `s[a..]` : a <= b <= len(s)"""
+    if not o.kind.startswith("call:index"):
+        return None
+    s, rng = o.ops[0], o.ops[1]
+    if not (isinstance(rng, tuple) and rng[0] == "agg" and rng[1] == "adt"):
+        return None
+    kind = rng[2].split("::")[-1]
+    ops = rng[5]
+    start = ops[0] if kind in ("Range", "RangeFrom") else None
+    end = ops[1] if kind == "Range" else (ops[0] if kind == "RangeTo" else None)
+
+    def le_len(x):
+        v = intervals.cval(x)
+        if array_len is not None:
+            if v is not None and v <= array_len:
+                return "constant %d <= array length %d" % (v, array_len)
+            lo, hi = bounds_of(o.atoms, x, typeb)
+            if hi is not None and hi <= array_len:
+                return "interval hi=%d <= array length %d" % (hi, array_len)
+        if v is not None and len_lower_bound(o.atoms, s) >= v:
+            return "guard len >= %d" % v
+        if fits_by_get(o.atoms, s, x):
+            return "guard `get(..n)` is Some"
+        if _rel(o.atoms, x, ("call", "std::slice::<impl [T]>::len", (s,), 0), ("Le", "Lt")):
+            return "guard n <= len"
+        for a in o.atoms:
+            if a[0] == "cmp" and _is_len_of(a[3], s) and intervals.core(a[2]) == intervals.core(x) and a[1] in ("Le", "Lt"):
+                return "guard n <= len"
+            if a[0] == "cmp" and _is_len_of(a[2], s) and intervals.core(a[3]) == intervals.core(x) and a[1] in ("Ge", "Gt"):
+                return "guard len >= n"
+        return None
+    why = []
+    if end is not None:
+        w = le_len(end)
+        if not w:
+            return None
+        why.append("end: " + w)
+    if start is not None:
+        if end is not None:
+            vs, ve = intervals.cval(start), intervals.cval(end)
+            if vs is not None and ve is not None and vs <= ve:
+                why.append("start<=end constants")
+            elif _rel(o.atoms, start, end, ("Lt", "Le")):
+                why.append("guard start<=end")
+            elif vs == 0:
+                why.append("start 0")
+            else:
+                sl, sh = bounds_of(o.atoms, start, typeb)
+                el, eh = bounds_of(o.atoms, end, typeb)
+                if sh is not None and el is not None and sh <= el:
+                    why.append("interval start<=end")
+                else:
+                    return None
+        else:
+            w = le_len(start)
+            if not w:
+                return None
+            why.append("start: " + w)
+    return "; ".join(why) if why else None
